@@ -3,6 +3,8 @@
 Layer A: every ordered tuple (with repetition) of 2..5 sites over a per-scene alphabet (covers all input orders).
 Layer B: chains of 6..12 sites spaced 0.8 L that cross several chunks along RA, along Dec, diagonally and over the
          pole, with every single link widened to 1.3 L in turn, in every rotation and reversal of the input order.
+Layer S: serpentines and combs (2-4 parallel rows joined at alternating / equal ends, one bridge removed in turn) that
+         force multi-level merges of provisional per-chunk groups, in six input orders.
 Layer P: all 720 input orders of fixed 6-point configurations that span chunks, the RA seam and the pole.
 Oracle: connected components of {sep <= L} by union-find on brute-force separations (_sphere.sep_deg).
 """
@@ -28,7 +30,8 @@ LEVEL_NOTE = ('holds for the enumerated scenes, linking lengths 1 arcsec..30 deg
               'are do-not-care. Trusted: the separation formula and union-find in mc/props/_sphere.py, numpy.')
 RULE = ('Layer A: per (scene, linking length L, chunk size) all n^2+..+n^5 ordered tuples with repetition over the first n sites '
         '(n=7 thorough, 6 quick) placed at multiples of 0.37 L. Layer B: per (scene, direction, L, chunk) chains of N sites spaced '
-        '0.8 L with no cut or one link widened to 1.3 L, in all N rotations x 2 directions of the input order. Layer P: all 720 '
+        '0.8 L with no cut or one link widened to 1.3 L, in all N rotations x 2 directions of the input order. Layer S: 2-4 rows of '
+        '6 or 10 sites joined as serpentine/comb (4 patterns), each bridge removed in turn, rows along RA or Dec, 6 input orders. Layer P: all 720 '
         'orders of two 6-point configurations. A case is non-trivial when at least two distinct positions are within the linking '
         'length of each other (a group that has to be found); distinct = distinct (coordinates in input order, L, chunk size).')
 ASSUMPTIONS = ['a case is do-not-care when the components of {sep <= L(1-1e-9)-1e-12} and {sep <= L(1+1e-9)+1e-12} differ',
@@ -101,7 +104,7 @@ def check_arrays(ra, dec, L, chunk, sep=None):
                     m = S.effective_chunk(L, chunk, True)
                     t = {S.lost_pair_trigger(ra, dec, a, ra[c], dec[c], L, m, 'unattributed', 200000)
                          for a, c in (edge, edge[::-1])}
-                    t.discard('unattributed')
+                    t = {x.replace(':unattributed', '') for x in t if x != 'unattributed'}
                     if t:
                         trig = ':' + '+'.join(sorted(t))
                 bad.append(('spheregroup:split' + trig,
@@ -202,6 +205,10 @@ def tasks(tier):
                 for cf in ([None, 4.0, 4.5, 8.0] if T else [None, 4.5]):
                     t.append({'layer': 'B', 'scene': scene, 'dir': d, 'L': L, 'cf': cf,
                               'sizes': list(range(6, 13)) if T else [6, 9, 12]})
+    for scene in SNAKE_BASE:
+        for L in (LENGTHS if T else [0.1, 5.0]):
+            for cf in ([None, 4.0, 4.5, 8.0] if T else [None, 4.5]):
+                t.append({'layer': 'S', 'scene': scene, 'L': L, 'cf': cf})
     for cfgname in ('seam-chain', 'pole-ring'):
         for L in (LENGTHS if T else [0.1, 5.0]):
             for cf in ([None, 4.0, 8.0] if T else [None]):
@@ -332,7 +339,75 @@ def _run_P(acc, task):
     acc.sample(make_case(ra, dec, L, chunk))
 
 
+# ------------------------------------------------------------------ layer S: serpentines and combs (merge trees)
+SNAKE_BASE = {'equator': (150.0, 0.3), 'seam': (359.0, 12.0), 'mid60': (200.0, 55.0)}
+PATTERNS = ['snake-r', 'snake-l', 'comb-r', 'comb-l']
+
+
+def snake(scene, L, arms, n, pattern, cut, orient):
+    """`arms` parallel rows of n sites spaced 0.9 L, 1.5 L apart (not linked), consecutive rows joined at one end by a
+    bridge site (bridge number `cut` left out; 0: none).  Rows run along RA ('ra') or along Dec ('dec')."""
+    ra0, dec0 = SNAKE_BASE[scene]
+    pts = []
+    for k in range(arms):
+        for i in range(n):
+            pts.append((i * 0.9 * L, k * 1.5 * L))
+    for k in range(arms - 1):
+        right = {'snake-r': k % 2 == 0, 'snake-l': k % 2 == 1, 'comb-r': True, 'comb-l': False}[pattern]
+        if cut == k + 1:
+            continue
+        pts.append(((n - 1) * 0.9 * L if right else 0.0, (k + 0.5) * 1.5 * L))
+    out = []
+    for (x, y) in pts:
+        if orient == 'dec':
+            x, y = y, x
+        d = dec0 + y
+        if abs(d) >= 89.0:
+            return None
+        dra = x / math.cos(math.radians(dec0))
+        if dra >= 175.0:
+            return None
+        out.append(((ra0 + dra) % 360.0, d))
+    return out
+
+
+def _orders(N):
+    base = list(range(N))
+    return [base, base[::-1], base[0::2] + base[1::2], base[N // 3:] + base[:N // 3],
+            base[2 * N // 3:] + base[:2 * N // 3], base[1::2][::-1] + base[0::2]]
+
+
+def _run_S(acc, task):
+    scene, L, cf = task['scene'], task['L'], task['cf']
+    chunk = _chunk(L, cf)
+    cfg = ('S', scene, L, cf)
+    last = None
+    for arms in (2, 3, 4):
+        for n in (6, 10):
+            for pattern in PATTERNS:
+                for cut in range(0, arms):
+                    for orient in ('ra', 'dec'):
+                        pts = snake(scene, L, arms, n, pattern, cut, orient)
+                        if pts is None:
+                            acc.skip('not-applicable: %s serpentine L=%g %dx%d along %s does not fit' % (scene, L, arms, n, orient), 6)
+                            continue
+                        ra = np.array([p[0] for p in pts], dtype=float)
+                        dec = np.array([p[1] for p in pts], dtype=float)
+                        cells = S.cell_count(ra, dec, S.effective_chunk(L, chunk, True))
+                        if cells > GUARD:
+                            acc.skip('resource-guard: serpentine %s L=%g chunk=%s -> %d cells' % (scene, L, chunk, cells), 6)
+                            continue
+                        full = S.sep_matrix(ra, dec, ra, dec)
+                        for oi, order in enumerate(_orders(len(pts))):
+                            idx = np.array(order)
+                            _one(acc, cfg, (arms, n, pattern, cut, orient, oi), ra[idx], dec[idx], L, chunk,
+                                 sep=full[np.ix_(idx, idx)])
+                        last = (ra, dec)
+    if last is not None:
+        acc.sample(make_case(last[0], last[1], L, chunk))
+
+
 def run_task(task):
     acc = Acc()
-    {'A': _run_A, 'B': _run_B, 'P': _run_P}[task['layer']](acc, task)
+    {'A': _run_A, 'B': _run_B, 'P': _run_P, 'S': _run_S}[task['layer']](acc, task)
     return acc
